@@ -13,7 +13,11 @@ Pipeline (AGENT_BRIEF.md):
        (iii) extracted recorder model on the callback log == real .testvectors, line by line;
              the real file replayed by the harness into a FRESH real simulation: every CHECK must hold
        independent oracle (python, not the Coq model): own VCD parser + own identifier formula vs the trace,
-       every signal at every commit tick; replay verdicts of the harness
+       every signal at every commit tick; replay verdicts of the harness (the replayed design's reset pins are driven by
+       the RST records, so CHECKs only hold if the recorded levels are right); every RST record, the declared initial
+       values and the reset assignments of the inline recorder's VHDL test bench vs the LEVEL of the reset signal sampled
+       with Simulator::getValueOfReset (clock / reset lines of the VCD likewise use getValueOfClock / getValueOfReset);
+       designs vary reset polarity, sync/async/none, hold cycles/time, reset names, derived clocks
   5. proof / model / tie broken without an oracle failure -> search mode (more cases, oracle only)
 """
 import sys, os
@@ -42,7 +46,8 @@ WIDTHS = [1, 2, 3, 7, 8, 9, 31, 32, 33, 63, 64, 65, 100, 127, 128, 129, 130]
 # ~100 ns (simulator time, VCD tick, recorder flush) -- known findings, kept alive by corpus cases only
 NORMAL_F = [F(100_000_000), F(125_000_000), F(50_000_000), F(400_000_000, 3), F(250_000_000), F(10_000_000), F(200_000_000)]
 EXOTIC_F = [F(700_000_000_000), F(3_000_000_000_000), F(1_000_000_000_000), F(250_000_000_000), F(3_000_000_000), F(10 ** 12, 7)]
-KEYS = ["id", "nclk", "f0", "f1", "wc", "ws", "wd", "steps", "seed", "tv", "allsig", "wait", "pows", "end"]
+KEYS = ["id", "nclk", "f0", "f1", "wc", "ws", "wd", "steps", "seed", "tv", "allsig", "wait", "pows", "end",
+        "rp0", "rt0", "mrc0", "mrt0", "rn0", "rp1", "rt1", "mrc1", "mrt1", "rn1", "der"]
 
 
 def fr(x):
@@ -82,6 +87,18 @@ def gen_case(rng, cid, tier, family):
     c = dict(id=cid, nclk=nclk, f0=fr(fs[0]), f1=fr(fs[1]), wc=rng.choice(WIDTHS[:12]), ws=rng.choice(WIDTHS),
              wd=rng.choice(WIDTHS), steps=steps, seed=rng.randrange(1, 10 ** 9), tv=tv,
              allsig=rng.choice([0, 0, 1]), wait=wait, pows=rng.choice([0, 1, 1]), end=fr(end))
+    # reset of every clock: polarity, kind, hold requirements, name; sometimes a derived clock (own reset, opposite polarity)
+    for k in range(nclk):
+        c[f"rp{k}"] = rng.choice("HL")
+        c[f"rt{k}"] = rng.choice("SSAAN") if family == "tv" else rng.choice("SA")
+        if rng.random() < 0.35:
+            c[f"mrc{k}"] = rng.choice([2, 3, 5])
+        if rng.random() < 0.25:
+            c[f"mrt{k}"] = rng.choice([12345, 37000, 50001]) if family == "tv" else rng.choice([3, 11])
+        if rng.random() < 0.3:
+            c[f"rn{k}"] = rng.choice(["my_reset", "areset_n", "sys_rst"]) + (str(k) if nclk > 1 else "")
+    if family == "tv" and c["rt0"] != "N":
+        c["der"] = rng.choice([0, 0, 1, 2])
     return {k: str(v) for k, v in c.items()}
 
 
@@ -97,6 +114,10 @@ def gen_cases(tier, seed, n_tv, n_vcd, prefix="g"):
         cases.append({k: str(v) for k, v in dict(id=f"{prefix}w{i}", nclk=1, f0="100000000/1", f1="100000000/1", wc=5, ws=w, wd=w,
                                                   steps=14, seed=rng.randrange(1, 10 ** 9), tv=1, allsig=0, wait=0, pows=1,
                                                   end="3333335/10000000000000").items()})
+    for i, (rp, rt) in enumerate([("L", "S"), ("L", "A"), ("H", "A")]):
+        cases.append({k: str(v) for k, v in dict(id=f"{prefix}r{i}", nclk=1, f0="100000000/1", f1="100000000/1", wc=4, ws=5, wd=6, steps=14,
+                                                  seed=rng.randrange(1, 10 ** 9), tv=1, allsig=0, wait=0, pows=1,
+                                                  end="3000005/10000000000000", rp0=rp, rt0=rt, mrc0=rng.choice([0, 3])).items()})
     cases.append({k: str(v) for k, v in dict(id=f"{prefix}k0", nclk=1, f0="100000000/1", f1="100000000/1", wc=4, ws=3, wd=6, steps=6,
                                               seed=rng.randrange(1, 10 ** 9), tv=1, allsig=0, wait=0, pows=2, end="2500005/10000000000000").items()})
     return cases
@@ -444,6 +465,73 @@ def analyze_tv(d, cid, driver, hist):
         elif t[0] == "Read":
             hist["tv_read_in_phase_%d" % ph] += 1
     fails, known, known_wrap, known_subps = [], [], [], []
+    # ---- reset records vs the LEVEL the reset signal had in the recorded run (Simulator::getValueOfReset, sampled by the
+    #      observer inside onReset): record level == signal level; the reset is asserted iff level == activeHigh
+    decl, timeline, now_t, poweron_level, seen_other = {}, {}, F(0), {}, False
+    for l in (d / f"{cid}.tvlog").read_text().splitlines():
+        t = l.split(" ")
+        if t[0] == "RstDecl":
+            decl[t[1]] = (t[2] == "1", t[3])
+            hist["tv_reset_pin_active_%s_%s" % ("high" if t[2] == "1" else "low", "async" if t[3] == "A" else "sync")] += 1
+        elif t[0] == "NewPhase":
+            now_t = F(int(t[2]), int(t[3])); seen_other = True
+        elif t[0] == "Reset":
+            timeline.setdefault(t[1], []).append((now_t, t[2]))
+            if not seen_other:
+                poweron_level[t[1]] = t[2]
+            if len(t) > 3 and t[2] != t[3]:
+                fails.append(dict(what="onReset parameter differs from Simulator::getValueOfReset", reset=t[1], level=t[2], parameter=t[3]))
+        elif t[0] in ("Set", "Read", "Commit", "AMT"):
+            seen_other = True
+    tabs, rst_fail = 0, []
+    last_rec = {}
+    for i, r in enumerate(recs):
+        if r[0] == "ADV":
+            tabs += r[1]
+        elif r[0] == "RST":
+            name, lvl = r[1], r[2]
+            hist["tv_rst_records_checked_against_signal_level"] += 1
+            ev = [v for (tt, v) in timeline.get(name, []) if (tt.numerator * PS) // tt.denominator <= tabs]
+            ah = decl.get(name, (None, None))[0]
+            if ah is False:
+                hist["tv_rst_records_of_active_low_resets"] += 1
+            if not ev or ev[-1] != lvl:
+                rst_fail.append(dict(what="RST record level != level of the reset signal in the recorded run", record=i, time_ps=tabs, reset=name,
+                                     file_level=lvl, signal_level=(ev[-1] if ev else None), active_high=ah,
+                                     meaning=("file says %s, simulator had the reset %s" % (
+                                         "asserted" if (lvl == "1") == ah else "released",
+                                         "asserted" if ev and (ev[-1] == "1") == ah else "released")) if ah is not None else ""))
+            last_rec[name] = lvl
+    for name, evs_ in timeline.items():
+        if name in decl and (name not in last_rec or last_rec[name] != evs_[-1][1]):
+            rst_fail.append(dict(what="final level of a reset in the file != final level in the recorded run", reset=name,
+                                 file_level=last_rec.get(name), signal_level=evs_[-1][1]))
+    # ---- the inline recorder (generated VHDL test bench): declared initial values and the sequence of reset assignments
+    tb = d / f"{cid}.tbinline.vhd"
+    if tb.exists() and decl:
+        import re
+        txt = tb.read_text()
+        for name in decl:
+            m = re.search(r"SIGNAL\s+" + re.escape(name) + r"\s*:\s*STD_LOGIC\s*:=\s*'(.)'", txt)
+            if m and name in poweron_level and m.group(1) != poweron_level[name]:
+                rst_fail.append(dict(what="inline test bench: declared initial value of the reset != level after power-on", reset=name,
+                                     declared=m.group(1), signal_level=poweron_level[name]))
+        assigns = [(m.group(1), m.group(2)) for m in re.finditer(r"^\s*(\w+)\s*<=\s*'([01])';\s*$", txt, re.M) if m.group(1) in decl]
+        # reference: the RST sequence the python emulation derives from the sampled signal levels (same phase structure in both recorders)
+        frecs, q = [], 0
+        while q < len(emu):
+            if emu[q] == "ADV":
+                q += 2
+            else:
+                if emu[q] == "RST":
+                    frecs.append((emu[q + 1], emu[q + 2]))
+                q += 3
+        hist["tv_inline_reset_assignments_compared"] += len(assigns)
+        if assigns != frecs and first_wrap is None:
+            j = next((k for k in range(min(len(assigns), len(frecs))) if assigns[k] != frecs[k]), min(len(assigns), len(frecs)))
+            rst_fail.append(dict(what="inline test bench: reset assignments differ from the levels of the reset signals", position=j,
+                                 inline=assigns[j:j + 3], signal_levels=frecs[j:j + 3]))
+    fails += rst_fail
     rep_lines = (d / f"{cid}.replay").read_text().splitlines() if (d / f"{cid}.replay").exists() else []
     nchk = 0
     sched = {}
@@ -456,7 +544,6 @@ def analyze_tv(d, cid, driver, hist):
             sched[i] = int(sl[1])
     else:
         fails.append(dict(what="tv_parse/tv_schedule record count", model=len(sched_list), file=len(idx_nonadv)))
-    rstfile = rstsim = None
     for l in rep_lines:
         t = l.split(" ")
         if t[0] == "K":
@@ -468,7 +555,9 @@ def analyze_tv(d, cid, driver, hist):
                 grecs = [recs[j] for j in range(len(recs)) if grp[j] == grp[i]]
                 info = dict(what="replayed CHECK failed", record=i, time_ps=int(t[2]), pin=t[3], expected=t[4], observed=t[5],
                             group=[" ".join(str(x) for x in r if x is not None) for r in grecs])
-                if grp[i] == 0 and any(r[0] == "SET" for r in grecs):
+                if rst_fail:
+                    fails.append(info)      # wrong reset levels explain anything: never attribute such a run to a known finding
+                elif grp[i] == 0 and any(r[0] == "SET" for r in grecs):
                     known.append(info)
                 elif first_subps is not None and grp[i] >= first_subps and (first_wrap is None or first_subps <= first_wrap):
                     info["first_group_with_subps_spacing"] = first_subps
@@ -478,14 +567,8 @@ def analyze_tv(d, cid, driver, hist):
                     known_wrap.append(info)
                 else:
                     fails.append(info)
-        elif t[0] in ("BADPIN", "BADREC"):
+        elif t[0] in ("BADPIN", "BADREC") or (t[0] == "RSTREC" and t[-1] != "ok"):
             fails.append(dict(what=l))
-        elif t[0] == "RSTFILE":
-            rstfile = t[1:]
-        elif t[0] == "RSTSIM":
-            rstsim = t[1:]
-    if rstfile != rstsim:
-        fails.append(dict(what="RST records differ from the resets of the replayed simulation", file=rstfile, sim=rstsim))
     if not rep_lines:
         fails.append(dict(what="no replay output"))
     return len(real) + nchk, mm, fails[:12], known, dict(checks=nchk, known_wrap=known_wrap, known_subps=known_subps, wrap=first_wrap is not None)
@@ -654,10 +737,11 @@ def main():
     rep.cov["evaluations"] = sum(r["evals"] for _, r in results)
     rep.cov["distinct_nontrivial"] = nontriv
     rep.cov["rule"] = ("cases = design parameters (1-2 clocks with rational frequencies incl. 700 GHz / 3 THz so that commits share a "
-                       "picosecond, counter/shift/data widths from {1..130} aimed at 63/64/65/127/128/129) + seeded stimulus "
+                       "picosecond, every clock with a random reset polarity (active high/low), kind (sync/async/none), min reset cycles/time, reset name, "
+                       "optionally a derived clock with its own opposite-polarity reset; counter/shift/data widths from {1..130} aimed at 63/64/65/127/128/129) + seeded stimulus "
                        "(OnClk/AfterClk/WaitFor/WaitStable, pin values with undefined bits); evaluations = (signal, commit tick) "
                        "comparisons of the python oracle + extracted-reader queries + body lines compared + test-vector lines "
-                       "compared + replayed CHECKs; a case is non-trivial if its VCD has >= 10 value lines, at least one with X "
+                       "compared + replayed CHECKs (RST records and inline reset assignments vs sampled reset levels are counted in the histogram); a case is non-trivial if its VCD has >= 10 value lines, at least one with X "
                        "and one vector, and (tv cases) >= 3 CHECK records were replayed; distinct by parameter tuple")
     rep.cov["samples"] = [case_line(c) for c, _ in results[:3]] + [
         dict(case=case_line(c), vcd_value_lines=r["info"].get("nlines"), commits=r["info"].get("commits"),
@@ -677,6 +761,10 @@ def main():
         "test vectors: proved are the flush arithmetic (window, no accumulation of rounding, no unsigned wrap), the record order "
         "relative to phase boundaries and that no CHECK is lost; that a replay reproduces every CHECK is NOT proved (no model of the "
         "simulated design here) -- it is checked by replaying the real file into a fresh real simulation on every generated case",
+        "reset records: the file is compared with the level Simulator::getValueOfReset returned inside onReset and the replay drives the "
+        "reset pins of a fresh simulation from the RST records (ReferenceSimulator subclass in the harness); CLK records are not written by "
+        "the file based recorder (#if 0 in the source), clock levels are only checked in the VCD; of the inline TestbenchRecorder only the "
+        "declared initial reset values and the sequence of reset assignments are checked",
         "replay uses the reference simulator again (GHDL is absent): VHDL delta-cycle effects of `ADV 0` records are not covered",
         "sub-picosecond phase spacing (clock > ~100 GHz or many micro ticks) is outside the recorder's resolution "
         "(tv_subps_window_refuted); tv cases therefore use ns-scale clocks and waits",
